@@ -485,6 +485,8 @@ func main() {
 			emit(w.runCase(master.Fork(uint64(k)), nil, 25))
 		}
 		w.stress(R, time.Duration(*stressMs)*time.Millisecond)
+		w.farResetProbe(R)
+		w.suffixRaceProbe(R)
 		w.leaderless(R)
 		if *withCluster {
 			clusterPhase(R, <-prep)
